@@ -420,6 +420,30 @@ def check(pid, tier, seed):
         except Undecided as ex:
             undecided.append(str(ex))
 
+    # ---- thorough tier: deeper exploration with the counterexample engine (three seeds, large budget); sampled, labelled, never counted
+    exploration = []
+    if tier == 'thorough' and cfg.get('search_groups') and not undecided and os.path.exists(os.path.join(REPLAY_DIR, 'Cargo.toml.in')):
+        try:
+            if replay_bin is None:
+                replay_bin = replay_build()
+            for group in cfg['search_groups']:
+                for sd in (seed, seed + 1, seed + 2):
+                    rc, out, err, wall = replay_run(replay_bin, ['search', group, str(sd), '400000'], timeout=1500)
+                    mm = re.search(r'among (\d+) inputs', out)
+                    exploration.append({'group': group, 'seed': sd, 'rc': rc, 'inputs': int(mm.group(1)) if mm else None, 'wall_s': round(wall, 1)})
+                    if rc == 1:
+                        m = re.search(r'FAILING-INPUT (.*)', out)
+                        if m:
+                            payload = {'property': pid, 'obligation': 'thorough exploration of search group %s (seed %d)' % (group, sd), 'kind': 'obligation',
+                                       'verifier': 'directed search on the real code', 'verifier_output': out[-2000:], 'input': json.loads(m.group(1)), 'search_output': out[-3000:]}
+                            path = write_replay_file(pid, 'explore_' + group, payload)
+                            violations.append(('explore::' + group, path, True))
+                        break
+                    elif rc != 0:
+                        break
+        except Undecided as ex:
+            undecided.append(str(ex))
+
     if undecided and cfg.get('search_groups') and os.path.exists(os.path.join(REPLAY_DIR, 'Cargo.toml.in')):
         try:
             if replay_bin is None:
@@ -591,6 +615,7 @@ def check(pid, tier, seed):
         'counterexample_search': search_runs,
         'cfg_gated_sites': [{k2: st[k2] for k2 in ('file', 'line', 'kind', 'fn', 'decided_by')} for st in static_sites],
         'differential_stand_in': differential,
+        'thorough_exploration': exploration,
         'undecided': undecided,
         'explanation': cfg.get('explanation', ''),
     })
@@ -609,6 +634,8 @@ def check(pid, tier, seed):
         print('cfg-gated sites: %d, frame rule accepts %d' % (len(static_sites), sum(1 for st in static_sites if st['accepted'])))
     if differential:
         print('differential off/on: %s inputs, %s' % (differential['inputs'], 'MISMATCH' if differential['mismatch'] else 'identical outcomes'))
+    for x in exploration:
+        print('explore %-12s seed=%s %s inputs=%s %.0fs' % (x['group'], x['seed'], 'ok' if x['rc'] == 0 else 'FAILED', x['inputs'], x['wall_s']))
     for b in bounded_runs:
         print('bounded %-12s %s inputs=%s  [%s]' % (b['group'], 'ok' if b['rc'] == 0 else 'FAILED', b['inputs'], b['bound']))
     for k in kani_runs:
